@@ -19,7 +19,7 @@
      re-assign each public attribute between solves, two objects sharing arrays -- result identical to a fresh solver). *)
 From CV Require Import Base.Tac Base.LinAlg Base.Cmp Base.QcLin Model.C16_Solve
      Proofs.C16_CG Proofs.C16_Prox Proofs.C16_Wrap Proofs.C16_Spec Proofs.C16_Grad Proofs.C16_Mono Proofs.C16_LMfull Proofs.C16_Dim Proofs.C16_Conj Proofs.C16_ConjSpec
-     Proofs.C16_LMdesc Proofs.C16_LMdescSpec Proofs.C16_Exit Proofs.C16_Precond.
+     Proofs.C16_LMdesc Proofs.C16_LMdescSpec Proofs.C16_Exit Proofs.C16_Precond Proofs.C16_Wrap2 Proofs.C16_LMmore Proofs.C16_LMex.
 From Coq Require Import Reals QArith Qcanon Ring.
 From Coquelicot Require Import Coquelicot.
 
@@ -1016,3 +1016,95 @@ Example C16_pcgls_convergence_nonvacuous :
             qnormsq (qmattvec 2 A (qvsub b (qmatvec A x))) = 0%Qc.
 Proof. exact pcgls_convergence_nonvacuous_ex. Qed.
 Print Assumptions C16_pcgls_convergence_nonvacuous.
+
+(* ------------------------------------------------------------------------------------------------
+   L_BFGS_B.solve and LS.solve: the RESULT translation is inside the model (was: harness-only booleans)
+   ------------------------------------------------------------------------------------------------ *)
+
+(* L_BFGS_B.solve: solution, func, grad, nit, nfev (= funcalls) are SciPy's, unchanged; success = 1 iff warnflag = 0 *)
+Theorem C16_wrappers_lbfgsb_result : forall (r : lb_result),
+  let '(x, info) := lbfgsb_translate r in
+  x = lbr_x r /\ lbi_func info = lbr_f r /\ lbi_grad info = lbr_grad r /\ lbi_nit info = lbr_nit r /\ lbi_nfev info = lbr_funcalls r /\
+  (lbi_success info = 1%Z <-> lbr_warnflag r = 0%Z) /\ (lbi_success info = 0%Z <-> lbr_warnflag r <> 0%Z) /\
+  (lbr_warnflag r <> 0%Z -> lbr_warnflag r <> 1%Z -> lbi_message info = lbr_task r).
+Proof. exact lbfgsb_result_spec. Qed.
+Print Assumptions C16_wrappers_lbfgsb_result.
+
+(* LS.solve: solution and every info field (success, message, func = fun, jac, nfev) are SciPy's, unchanged; least_squares receives
+   the user's Jacobian callable, or SciPy's '2-point' scheme exactly when jacfun is None (the repaired default) *)
+Theorem C16_wrappers_ls_result : forall (r : ls_result),
+  (let '(x, info) := ls_result_translate r in
+   x = lsr_x r /\ lsi_success info = lsr_success r /\ lsi_message info = lsr_message r /\ lsi_func info = lsr_fun r /\
+   lsi_jac info = lsr_jac r /\ lsi_nfev info = lsr_nfev r) /\
+  (forall given, (ls_jac_arg given = LsTwoPoint <-> given = false) /\ (ls_jac_arg given = LsCallable <-> given = true)).
+Proof. intros r. split; [exact (ls_result_spec r) | exact ls_jac_arg_spec]. Qed.
+Print Assumptions C16_wrappers_ls_result.
+
+(* ------------------------------------------------------------------------------------------------
+   LM: the two open findings, with their mechanisms / witnesses inside the model
+   ------------------------------------------------------------------------------------------------ *)
+
+(* Mechanism of FINDING LM.solve|stagnation-returns-nan, as a theorem of the model: a trial point whose objective EQUALS the current
+   one -- in floating point: f - ftemp ROUNDS to 0 although xtemp <> x -- takes the branch `ratio = 0`, is ACCEPTED (0 < mu0 is false)
+   and nu is doubled (floor nu0), whatever the step.  In exact arithmetic equality of the two objectives is a coincidence; in floating
+   point it is what happens at the precision plateau |g|/|g0| ~ 1e-8, every iteration, until nu overflows (witness W_LM_NAN, replayed on
+   every run).  The descent theorems above are not contradicted: the objective does not increase -- it no longer decreases. *)
+Theorem C16_lm_zero_gain_step :
+  forall (T : Type) (t0 t1 : T) (tadd tmul tsub : T -> T -> T) (topp : T -> T)
+         (tdiv : T -> T -> T) (tleb : T -> T -> bool) (phi : T -> R),
+  embedding T t0 t1 tadd tmul tsub topp tleb phi ->
+  (forall a b, phi b <> 0%R -> phi (tdiv a b) = (phi a / phi b)%R) ->
+  forall (F : list T -> list T) (Jf : list T -> list (list T)) (solve : list (list T) -> list T -> list T)
+         (rnorm : list T -> T) (n : nat) (nu0 : T) (st : lm_state T),
+  phi (lm_f T st) = phi (step_ftemp T t0 t1 tadd tmul tsub tdiv F solve n st) ->
+  let st' := lm_step T t0 t1 tadd tmul tsub topp tdiv tleb F Jf solve rnorm n nu0 st in
+  step_ratio T t0 t1 tadd tmul tsub topp tdiv tleb F solve n st = t0 /\
+  lm_x T st' = step_xtemp T t0 t1 tadd tmul tsub solve n st /\
+  phi (lm_nu T st') = Rmax (2 * phi (lm_nu T st)) (phi nu0).
+Proof. exact lm_zero_gain_step. Qed.
+Print Assumptions C16_lm_zero_gain_step.
+
+(* the descent theorem at the carrier R, LA.norm = sqrt of the sum of squares (the norm hypothesis is discharged), any number of unknowns:
+   along the whole run 1/2|F|^2 never increases, every x_{j+1} is x_j or x_j - s_j, and 1/2|F(x)|^2 <= 1/2|F(x0)|^2 at the returned point;
+   together with C16_lm_stationary / C16_lm_first_order (same model instance) this is what is proved of LM as an optimiser *)
+Theorem C16_lm_descent_R :
+  forall (n : nat) (F : list R -> list R) (Jf : list R -> list (list R)) (solve : list (list R) -> list R -> list R)
+         (nu0 gradtol : R) (x0 : list R) (maxit : nat) (st : lm_state R) (i : nat),
+  (forall x, length x = n -> wf_mat n (Jf x)) -> (0 <= gradtol)%R -> length x0 = n ->
+  lm_solve R 0%R 1%R Rplus Rmult Rminus Ropp Rdiv Rleb F Jf solve Rnorm2 n nu0 gradtol x0 maxit = (st, i) ->
+  let tr := fun j => lm_iter R 0%R 1%R Rplus Rmult Rminus Ropp Rdiv Rleb F Jf solve Rnorm2 n nu0 j (lm_init R 0%R 1%R Rplus Rmult Rdiv F Jf Rnorm2 n x0) in
+  let f := fun x => (/ 2 * normsq 0%R Rplus Rmult (F x))%R in
+  (forall j, (j < i)%nat -> solved R 0%R 1%R Rplus Rmult solve n (tr j)) ->
+  st = tr i /\
+  (forall j, (j < i)%nat -> (f (lm_x R (tr (S j))) <= f (lm_x R (tr j)))%R /\
+                            (lm_x R (tr (S j)) = lm_x R (tr j) \/
+                             lm_x R (tr (S j)) = vsub Rminus (lm_x R (tr j)) (step_s R 0%R 1%R Rplus Rmult solve n (tr j)))) /\
+  (f (lm_x R st) <= f x0)%R.
+Proof. exact lm_descent_R. Qed.
+Print Assumptions C16_lm_descent_R.
+
+(* FINDING LM.solve|absolute-nu0-floor-stalls-small-residuals, exact-arithmetic witness (no rounding involved): the damping floor nu0 is
+   ABSOLUTE, so LM is not invariant under a change of units of the residuals although the stationary points are.  r(x) = x^2/8 + x/2 - 3/4,
+   x0 = -3/2, nu0 = 1, gradtol = 1e-6, maxit = 8: LM stops after 7 iterations at a gradtol-stationary point; for the SAME residuals divided
+   by 64 (same nu0) it uses all 8 iterations and the returned point is not gradtol-stationary (every rejected Gauss-Newton step resets nu to
+   nu0 >> J^T J).  With the default nu0 = 1e-3 the same happens for residuals of size 1e-3 (harness witness W_LM_FLOOR, 10000 iterations). *)
+Theorem C16_lm_nu0_floor_refuted :
+  exists (co : list (Q * Q * Q)) (sigma x0 nu0 gradtol : Q) (maxit : nat) (st st' : q_lm_state) (i : nat),
+    (0 < sigma)%Q /\
+    q_lm_solve (qco co) (qc nu0) (qc gradtol) (qc x0 :: nil) maxit = (st, i) /\ (i < maxit)%nat /\
+    stationary1 (qco co) (qc gradtol) (qc x0) (head0 (lm_x Qc st)) = true /\
+    q_lm_solve (qco (scale_co sigma co)) (qc nu0) (qc gradtol) (qc x0 :: nil) maxit = (st', maxit) /\
+    stationary1 (qco (scale_co sigma co)) (qc gradtol) (qc x0) (head0 (lm_x Qc st')) = false.
+Proof. exact lm_nu0_floor_refuted_ex. Qed.
+Print Assumptions C16_lm_nu0_floor_refuted.
+
+(* non-vacuity of C16_lm_fixed_point and C16_lm_zero_gain_step: r(x) = x^2 + 1 at its stationary point x = 0 (J = 0, g = 0, nu = 0): the system
+   0 s = 0 is solved by the s = 0 the model's solver returns, the trial point is x itself, and the two objectives coincide *)
+Example C16_lm_fixed_point_nonvacuous :
+  let co := qco ((1, 0, 1) :: nil)%Q in
+  let st := q_lm_init co (0%Qc :: nil) in
+  qmatvec (lm_matrix Qc 0%Qc 1%Qc Qcplus Qcmult 1 (lm_J Qc st) (lm_nu Qc st)) (step_s Qc 0%Qc 1%Qc Qcplus Qcmult q_solve1 1 st) = lm_g Qc st /\
+  step_s Qc 0%Qc 1%Qc Qcplus Qcmult q_solve1 1 st = vzero 0%Qc 1 /\
+  lm_f Qc st = step_ftemp Qc 0%Qc 1%Qc Qcplus Qcmult Qcminus Qcdiv (quadF co) q_solve1 1 st.
+Proof. exact lm_fixed_point_nonvacuous_ex. Qed.
+Print Assumptions C16_lm_fixed_point_nonvacuous.
